@@ -145,7 +145,7 @@ PROPS = {
         'trusted': ['plugin/federation/verif_hooks.go'],
     },
     'C19': {
-        'suites': [('auth', 500, 30000), ('authwire', 40, 2500)],
+        'props': ['C19', 'C19w'], 'suites': [('auth', 500, 30000), ('authwire', 40, 2500)],
         'rule': 'auth: a real auth.Auth per hash algorithm (plain/md5/sha256/bcrypt cost 4), histories of Update/Delete through the gRPC handlers incl. failing saves, validations of right / near-miss / empty / 65535-byte credentials, reload by a second instance from another working directory, directory of the password file renamed away and back; '
                 'authwire: in-process broker with the plugin, CONNECTs of v3.1/3.1.1/5 with every flag combination and AuthMethod, unauthenticated packets of every type before CONNECT and after a refused one, then inspection of sessions/subscriptions/retained',
         'assumptions': ['md5/sha256/bcrypt are abstract functions of the model (Section variables); their values are supplied per case by the harness and cross-checked', 'gen_sound: every bcrypt hash generated during a run verifies its password, checked on the bcrypt table sent with the case'],
